@@ -927,6 +927,11 @@ impl<W: InnerWriterTrait> ArchiveWriter<'_, W> {
     pub fn start_file(&mut self, filename: &str) -> Result<ArchiveFileID, Error> {
         check_state!(self.state, OpenedFiles);
 
+        // Refuse the file before any change is made to the archive or the writer
+        if filename.len() as u64 > FILENAME_MAX_SIZE {
+            return Err(Error::FilenameTooLong);
+        }
+
         if self.files_info.contains_key(filename) {
             return Err(Error::DuplicateFilename);
         }
